@@ -237,6 +237,14 @@ func (in *Interp) resolve(p Pointer) (parent Value, idx int, cur Value) {
 
 func (in *Interp) load(p Pointer) Value {
 	_, _, cur := in.resolve(p)
+	if in.spec != nil && len(in.spec.writes) > 0 {
+		if i, ok := in.spec.idx[specKey(p)]; ok {
+			return in.spec.writes[i].new
+		}
+		if _, scalar := cur.(*Term); !scalar {
+			panic(specAbort{}) // aggregate load that might overlap a speculative store
+		}
+	}
 	if _, ok := cur.(Poison); ok && !in.lenient {
 		unsupp("read of poisoned variable (%s): %s", p.obj.name, cur.(Poison).why)
 	}
@@ -244,6 +252,22 @@ func (in *Interp) load(p Pointer) Value {
 }
 
 func (in *Interp) store(p Pointer, v Value) {
+	if in.spec != nil {
+		nt, ok1 := v.(*Term)
+		_, _, cur := in.resolve(p)
+		ot, ok2 := cur.(*Term)
+		if !ok1 || !ok2 || nt.w != ot.w {
+			panic(specAbort{})
+		}
+		k := specKey(p)
+		if i, ok := in.spec.idx[k]; ok {
+			in.spec.writes[i].new = nt
+		} else {
+			in.spec.idx[k] = len(in.spec.writes)
+			in.spec.writes = append(in.spec.writes, specWrite{p: p, key: k, old: ot, new: nt})
+		}
+		return
+	}
 	parent, idx, _ := in.resolve(p)
 	v = copyVal(v)
 	if idx < 0 {
